@@ -520,7 +520,10 @@ func globExpected(pattern string, files []string) []string {
 	return out
 }
 
-func componentCase(c *Case) (*WF, string) {
+func componentCase(c *Case) (*WF, string) { return componentCaseKind(c, "") }
+
+// componentCaseKind: force != "" fixes the kind of component (the draw is made all the same).
+func componentCaseKind(c *Case, force string) (*WF, string) {
 	t := c.Tape
 	w := &WF{Name: "wf", Sources: map[string]string{}}
 	w.MaxTasks = 1 + t.Choose(simrt.StGen, 4, 0)
@@ -531,6 +534,9 @@ func componentCase(c *Case) (*WF, string) {
 	}
 	kinds := []string{"filecomb", "paramcomb", "selector", "splitter", "concat", "globber", "fileparams", "cmdparams", "sources", "globdep"}
 	kind := kinds[t.Choose(simrt.StGen, len(kinds), 0)]
+	if force != "" {
+		kind = force
+	}
 	ports := []string{"a", "b", "c", "d"}
 	switch kind {
 	case "globdep":
@@ -566,7 +572,17 @@ func componentCase(c *Case) (*WF, string) {
 			}
 			ups = append(ups, e)
 		}
-		cmb := Node{Name: "comb", Kind: KFileCombinator}
+		// the sources list their files in a tape-chosen order (arrival order is
+		// then not the lexicographic order of the paths)
+		for i := range w.Nodes {
+			if fs := w.Nodes[i].Files; w.Nodes[i].Kind == KFileSrc && len(fs) > 1 && t.Choose(simrt.StGen, 2, 0) == 1 {
+				for a := len(fs) - 1; a > 0; a-- {
+					b := t.Choose(simrt.StGen, a+1, 0)
+					fs[a], fs[b] = fs[b], fs[a]
+				}
+			}
+		}
+		cmb := Node{Name: "comb", Kind: KFileCombinator, Rec: true}
 		var outs []Edge
 		for i := 0; i < k; i++ {
 			cmb.Ins = append(cmb.Ins, InSpec{Name: ports[i], From: []Edge{ups[i]}})
@@ -795,6 +811,32 @@ func componentCase(c *Case) (*WF, string) {
 	return w, kind
 }
 
+// combinatorOrder: on every out-port of the FileCombinator "comb" the files
+// appear (first occurrence) in the order in which they arrived on the in-port
+// of the same name.
+func combinatorOrder(w *WF, ex *Expect, inc *Inc) Verdict {
+	cmb := w.NodeByName("comb")
+	for _, in := range cmb.Ins {
+		e := in.From[0]
+		var want []string
+		for _, it := range ex.Streams[w.Nodes[e.Node].Name+"."+e.Port].Items {
+			want = append(want, it.Path)
+		}
+		var first []string
+		seen := map[string]bool{}
+		for _, p := range inc.RT.Recorded[recKey("comb", in.Name, "use", in.Name)] {
+			if !seen[p] {
+				seen[p] = true
+				first = append(first, p)
+			}
+		}
+		if len(first) == len(want) && strings.Join(first, " ") != strings.Join(want, " ") {
+			return Viol("combinator-order", "filecomb", "FileCombinator port %s: files left (first occurrences) as %v, they arrived as %v", in.Name, first, want)
+		}
+	}
+	return OK()
+}
+
 func linesOf(b []byte) int { return strings.Count(string(b), "\n") }
 
 func init() {
@@ -966,6 +1008,10 @@ func init() {
 					return Viol("concat-inputs", kind, "Concatenator received %v, upstream emitted %v", arrival, want)
 				}
 				return OK()
+			case "filecomb":
+				if v := combinatorOrder(w, ex, inc); v.Status != "ok" {
+					return v
+				}
 			case "globber":
 				// matches are emitted pattern by pattern, each pattern's matches in the
 				// (sorted) order filepath.Glob yields them
